@@ -23,6 +23,8 @@ func init() {
 		ruleWildcardOpt(c, r)
 		ruleReflectString(c, r, c.anchored("C02"))
 		ruleRenderSkip(c, r)
+		rulePrefixPair(c, r)
+		ruleSetOrder(c, r)
 		ruleEmptyLeafList(c, r)
 		ruleIntBase(c, r)
 		ruleLossyNum(c, r, c.funcsInScope(func(s string) bool { return s == "ytypes/leaf.go" || s == "ytypes/leaf_list.go" || s == "ytypes/util_types.go" || s == "ygot/render.go" }, libPkgs), 2)
@@ -115,6 +117,7 @@ func init() {
 		ruleSignConv(c, r, c.anchored("C06"), 2)
 		ruleByteRune(c, r, c.anchored("C06"))
 		ruleCacheKey(c, r)
+		ruleAnchorGroup(c, r)
 	})
 	register("C07", func(c *Ctx, r *Report) {
 		r.Decides("every checker the property names is reachable from Validate through static calls; no validator loop silently skips an iteration; string lengths in characters; no sign-changing conversions in the validators.",
